@@ -126,3 +126,30 @@ def check_adjust_wakes_all(prog, chk, rule):
     ok = len(nt) == 1 and lw.holds(nt[0], "self.lock") and lw.fl.exit_dominated(guard_nodes=nt)
     chk.ob(rule, "_window_adjust", ok, wa.loc, "out_buffer_cv.notify_all() under the lock on every path (a single notify leaves other blocked senders parked)")
     return ok
+
+
+def gss_handler_table(prog):
+    """[(handler qual, 'unbound'|'bound', value text)] of GssapiWithMicAuthHandler's dispatch table, in either form the
+    class has had: a class-level dict of plain functions (values are Names: *unbound*, the caller must pass self) or
+    a dict of bound methods (self._x) returned by the _handler_table property / built in __init__."""
+    import ast as _ast
+    from ..core.model import walk_no_defs as _w
+    g2 = prog.cls("GssapiWithMicAuthHandler")
+    out = []
+    for s in g2.node.body:
+        if isinstance(s, _ast.Assign) and isinstance(s.value, _ast.Dict) and "handler_table" in unparse(s.targets[0]):
+            for v in s.value.values:
+                if isinstance(v, _ast.Name) and v.id in g2.methods:
+                    out.append((g2.methods[v.id].qual, "unbound", v.id))
+    if not out:
+        for m in g2.methods.values():
+            if "handler_table" not in m.name and m.name != "__init__":
+                continue
+            for d in _w(m.node):
+                if isinstance(d, _ast.Dict):
+                    for v in d.values:
+                        if isinstance(v, _ast.Attribute) and unparse(v.value) == "self" and v.attr in g2.methods:
+                            out.append((g2.methods[v.attr].qual, "bound", unparse(v)))
+    if not out:
+        raise AnalysisError("GssapiWithMicAuthHandler", "dispatch table not found in either recognised form")
+    return out
